@@ -69,7 +69,7 @@ Theorem C01_fragment_language_partial :
   forall prog input fl o r s,
     p_op prog = make_sequence o OEnd ->
     plain (p_hasbackrefs prog) (p_maxparens prog) o ->
-    lowers (p_case prog) fl o r -> s_i fl = p_case prog -> s_m fl = p_multi prog ->
+    lowers input (p_case prog) fl o r -> s_i fl = p_case prog -> s_m fl = p_multi prog ->
     (p_hasbol prog = false /\ p_minlen prog = 0%N /\ p_prefix prog = None /\ p_icc prog = None /\ p_pre prog = []) ->
     length (sb s) = length (eb s) ->
     ((exists s', matches prog input 0 s = MTrue s') <-> spec_is_match fl input r = true).
@@ -78,12 +78,12 @@ Proof. exact fragment_is_match_spec. Qed.
 (* the engine's end positions are the specification's, operation by operation *)
 Theorem C01_fragment_ends_partial :
   forall input ci multi hb K fl, s_i fl = ci -> s_m fl = multi ->
-    forall o, plain hb K o -> forall r, lowers ci fl o r ->
+    forall o, plain hb K o -> forall r, lowers input ci fl o r ->
       forall p q, p <= length input -> (In q (Rop input ci multi o p) <-> In q (ends fl input r p)).
 Proof. exact lowers_ends. Qed.
 
 Example C01_language_nonvacuous :
-  p_op ex_prog = make_sequence ex_op OEnd /\ plain false 1 ex_op /\ lowers false ex_fl ex_op ex_re
+  p_op ex_prog = make_sequence ex_op OEnd /\ plain false 1 ex_op /\ (forall input, lowers input false ex_fl ex_op ex_re)
   /\ spec_is_match ex_fl [122; 98; 100; 100; 120]%N ex_re = true.
 Proof. split; [reflexivity|]. split; [exact ex_plain|]. split; [exact ex_lowers | exact ex_agree]. Qed.
 
@@ -98,7 +98,7 @@ Theorem C01_fragment_quantified_language_partial :
     p_op prog = make_sequence o OEnd ->
     plainq input (p_case prog) (p_multi prog) (p_hasbackrefs prog) (p_maxparens prog) o ->
     quant_wf r ->
-    lowersq (p_case prog) fl o r -> s_i fl = p_case prog -> s_m fl = p_multi prog ->
+    lowersq input (p_case prog) fl o r -> s_i fl = p_case prog -> s_m fl = p_multi prog ->
     (N.of_nat (length input) < umax)%N ->
     (p_hasbol prog = false /\ p_minlen prog = 0%N /\ p_prefix prog = None /\ p_icc prog = None /\ p_pre prog = []) ->
     length (sb s) = length (eb s) ->
@@ -106,7 +106,7 @@ Theorem C01_fragment_quantified_language_partial :
 Proof. exact fragmentq_is_match_spec. Qed.
 
 Example C01_quantified_nonvacuous :
-  (forall input, plainq input false false false 1 exq_op) /\ lowersq false ex_fl exq_op exq_re /\ quant_wf exq_re
+  (forall input, plainq input false false false 1 exq_op) /\ (forall input, lowersq input false ex_fl exq_op exq_re) /\ quant_wf exq_re
   /\ (exists s', matches exq_prog [122; 98; 120; 120; 120; 100; 100]%N 0 st0 = MTrue s')
   /\ spec_is_match ex_fl [122; 98; 120; 120; 120; 100; 100]%N exq_re = true.
 Proof.
@@ -138,7 +138,7 @@ Proof. exact ordinary_pattern_end_to_end. Qed.
    = the specification's parser, flag reader and set semantics; every stage a theorem *)
 Theorem C01_group_grammar_end_to_end_partial :
   forall xpath a fls input,
-    ok_a xpath a = true -> existsb (N.eqb 59) fls = false -> (N.of_nat (length input) < umax)%N ->
+    ok_a xpath a = true -> existsb (N.eqb 59) fls = false -> (N.of_nat (length input) < umax)%N -> valid_in input ->
     match spec_flags xpath fls with
     | Valid sf =>
         s_q sf = false -> s_x sf = false ->
